@@ -92,14 +92,7 @@ func assemble(s Script, inits map[int]Script, auth *authInfo, budget func(to com
 	var body []byte
 	var blobs [][]byte
 	var fixes []fix
-	if auth != nil {
-		for _, a := range s {
-			if a.Kind == "ac" {
-				body = append(body, auth.prologue()...)
-				break
-			}
-		}
-	}
+	authDone := false
 	for _, a := range s {
 		switch a.Kind {
 		case "c", "cc":
@@ -150,6 +143,12 @@ func assemble(s Script, inits map[int]Script, auth *authInfo, budget func(to com
 			body = append(body, push20(a.To)...)
 			body = append(body, 0xff)
 		case "ac":
+			if !authDone {
+				// AUTH right before the first AUTHCALL (before Proposal014 both are invalid opcodes: the frame
+				// fails exactly where the model's `.authcall` does)
+				body = append(body, auth.prologue()...)
+				authDone = true
+			}
 			body = append(body, auth.call(a.To, a.Val)...)
 		case "stk", "ustk":
 			// STAKE / UNSTAKE (pointer = ADDRESS, value)
